@@ -11,8 +11,8 @@ Gp == INSTANCE GPO
 Po == INSTANCE POO
 
 Traces == JsonDeserialize(IOEnv.TRACE_FILE)
-VARIABLES tid, l, G, pidOf, ph, err, done
-vars == <<tid, l, G, pidOf, ph, err, done>>
+VARIABLES tid, l, G, pidOf, ph, err, soft, done
+vars == <<tid, l, G, pidOf, ph, err, soft, done>>
 Tr == Traces[tid]
 PP == Tr.P
 Ev == Tr.ev
@@ -20,7 +20,7 @@ IsGPO == PP.algo \in {"GPO", "PCT", "VPCT"}
 Has(e, f) == f \in DOMAIN e
 Abs(x) == IF x < 0 THEN -x ELSE x
 
-Init == /\ tid \in 1 .. Len(Traces) /\ l = 1 /\ ph = "new" /\ err = "ok" /\ done = FALSE
+Init == /\ tid \in 1 .. Len(Traces) /\ l = 1 /\ ph = "new" /\ err = "ok" /\ soft = <<>> /\ done = FALSE
         /\ G = [x |-> 0] /\ pidOf = <<>>
 
 \* projections of the observed sub-events onto the specification's vocabulary
@@ -36,6 +36,14 @@ PidOfPt(po, pt) == IF pt[1] \in DOMAIN po /\ pt[2] \in DOMAIN po[pt[1]] THEN po[
 
 CallFail(e) == IF Has(e, "hang") THEN "call.hangs" ELSE IF Has(e, "exc") THEN "call.raises"
                ELSE IF e.k \in {"pull", "glp"} /\ e.ptok # 1 THEN "call.not-a-point" ELSE "ok"
+
+\* Soft clauses: the specification's state (G) is driven by the call sequence and the rewards alone, never by what the
+\* implementation reports about scores, parameters or points, so after such a mismatch the walk goes on and later
+\* clauses (other properties' too, e.g. the final recommendation) are still judged.  <<clause, event>>, first
+\* occurrence of each clause, at most 6.  Hard: only what makes the rest uninterpretable (a call that fails, learners
+\* created / pulled / rewarded differently from the schedule).
+AddSoft(sf, c, at) == IF c = "ok" \/ Len(sf) >= 6 \/ (\E i \in DOMAIN sf : sf[i][1] = c) THEN sf ELSE Append(sf, <<c, at>>)
+SoftString(sf) == FoldLeft(LAMBDA acc, x : (IF acc = "" THEN "" ELSE acc \o "|") \o x[1] \o "@" \o ToString(x[2]), "", sf)
 
 \* observed score (scale SV) equals the mean sum/cnt of grid rewards (unit 1/RU)
 ScoreOK(v, sum, cnt) == Abs(v * cnt * PP.RU - sum * PP.SV) <= cnt * PP.RU
@@ -53,20 +61,21 @@ GpoStep(e) ==
          LET r  == Gp!Pull(N, half, G)
              po == AddPids(pidOf, e.sub)
          IN [G |-> r.G, po |-> po,
-             err |-> IF Proj(e.sub) # r.sub THEN "gpo.schedule"
-                     ELSE IF ~GpoRhoOK(e.sub) THEN "gpo.rho"
-                     ELSE IF ~(e.pid \in {PidOfPt(po, pt) : pt \in r.ret}) THEN (IF Gp!Finished(N, G) THEN "gpo.final" ELSE "gpo.point")
-                     ELSE "ok"]
+             err |-> IF Proj(e.sub) # r.sub THEN "gpo.schedule" ELSE "ok",
+             soft |-> IF ~GpoRhoOK(e.sub) THEN "gpo.rho"
+                      ELSE IF ~(e.pid \in {PidOfPt(po, pt) : pt \in r.ret}) THEN (IF Gp!Finished(N, G) THEN "gpo.final" ELSE "gpo.point")
+                      ELSE "ok"]
     [] e.k = "recv" ->
          LET r == Gp!Receive(N, half, G, e.r) IN
          [G |-> r.G, po |-> pidOf,
-          err |-> IF Proj(e.sub) # r.sub THEN "gpo.schedule"
-                  ELSE IF Len(e.V) # Len(r.G.vr) THEN "gpo.score-count"
-                  ELSE IF ~(\A i \in DOMAIN r.G.vr : Len(r.G.vr[i]) > 0 => ScoreOK(e.V[i], Gp!Sum(r.G.vr[i]), Len(r.G.vr[i]))) THEN "gpo.score"
-                  ELSE "ok"]
+          err |-> IF Proj(e.sub) # r.sub THEN "gpo.schedule" ELSE "ok",
+          soft |-> IF Len(e.V) # Len(r.G.vr) THEN "gpo.score-count"
+                   ELSE IF ~(\A i \in DOMAIN r.G.vr : Len(r.G.vr[i]) > 0 => ScoreOK(e.V[i], Gp!Sum(r.G.vr[i]), Len(r.G.vr[i]))) THEN "gpo.score"
+                   ELSE "ok"]
     [] e.k = "glp" ->
          [G |-> G, po |-> pidOf,
-          err |-> IF Gp!Finished(N, G) /\ ~(e.pid \in {PidOfPt(pidOf, pt) : pt \in Gp!GLPRet(N, G)}) THEN "gpo.final" ELSE "ok"]
+          err |-> "ok",
+          soft |-> IF Gp!Finished(N, G) /\ ~(e.pid \in {PidOfPt(pidOf, pt) : pt \in Gp!GLPRet(N, G)}) THEN "gpo.final" ELSE "ok"]
 
 -----------------------------------------------------------------------------
 PooRhoOK(Gn, sub) ==
@@ -88,17 +97,21 @@ PooStep(e) ==
          [G |-> r.G, po |-> pidOf,
           err |-> IF ~Po!Starts(thr) /\ G = Po!PInit THEN "poo.not-started"
                   ELSE IF Proj(e.sub) # r.sub THEN "poo.route"
-                  ELSE IF ~PooRhoOK(r.G, e.sub) THEN "poo.rho"
-                  ELSE IF e.pid # e.sub[Len(e.sub)][3] THEN "poo.point"
-                  ELSE "ok"]
+                  ELSE "ok",
+          soft |-> IF (~Po!Starts(thr) /\ G = Po!PInit) \/ Proj(e.sub) # r.sub THEN "ok"
+                   ELSE IF ~PooRhoOK(r.G, e.sub) THEN "poo.rho"
+                   ELSE IF e.pid # e.sub[Len(e.sub)][3] THEN "poo.point"
+                   ELSE "ok"]
     [] e.k = "recv" ->
          LET r == Po!Receive(thr, G, e.r) IN
          [G |-> r.G, po |-> pidOf,
-          err |-> IF Proj(e.sub) # r.sub THEN "poo.route" ELSE PooScores(r.G, e)]
+          err |-> IF Proj(e.sub) # r.sub THEN "poo.route" ELSE "ok",
+          soft |-> IF Proj(e.sub) # r.sub THEN "ok" ELSE PooScores(r.G, e)]
     [] e.k = "glp" ->
          [G |-> G, po |-> pidOf,
-          err |-> IF ~(Len(e.sub) = 1 /\ e.sub[1][1] = "pull" /\ e.sub[1][2] \in Po!GLPWho(G) /\ e.pid = e.sub[1][3]) THEN "poo.glp"
-                  ELSE PooScores(G, e)]
+          err |-> "ok",
+          soft |-> IF ~(Len(e.sub) = 1 /\ e.sub[1][1] = "pull" /\ e.sub[1][2] \in Po!GLPWho(G) /\ e.pid = e.sub[1][3]) THEN "poo.glp"
+                   ELSE PooScores(G, e)]
 
 -----------------------------------------------------------------------------
 Step ==
@@ -110,22 +123,22 @@ Step ==
                     ELSE IF IsGPO /\ (PP.N < 1 \/ PP.half < 1) THEN "gpo.undefined-schedule"
                     ELSE IF IsGPO /\ ~GpoRhoDistinct THEN "gpo.rho"
                     ELSE "ok"
-          /\ ph' = "told" /\ UNCHANGED pidOf
-     ELSE IF e.k = "end" THEN UNCHANGED <<G, pidOf, ph, err>>
+          /\ ph' = "told" /\ UNCHANGED <<pidOf, soft>>
+     ELSE IF e.k = "end" THEN UNCHANGED <<G, pidOf, ph, err, soft>>
      ELSE LET f == CallFail(e)
               okproto == CASE e.k = "pull" -> ph = "told" [] e.k = "recv" -> ph = "asked" [] OTHER -> TRUE    \* a query may come between pull and receive_reward
-          IN IF ~okproto THEN err' = "protocol" /\ UNCHANGED <<G, pidOf, ph>>
-             ELSE IF f # "ok" THEN err' = f /\ UNCHANGED <<G, pidOf, ph>>
+          IN IF ~okproto THEN err' = "protocol" /\ UNCHANGED <<G, pidOf, ph, soft>>
+             ELSE IF f # "ok" THEN err' = f /\ UNCHANGED <<G, pidOf, ph, soft>>
              ELSE LET r == IF IsGPO THEN GpoStep(e) ELSE PooStep(e) IN
-                  /\ err' = r.err
+                  /\ err' = r.err /\ soft' = AddSoft(soft, r.soft, l)
                   /\ G' = r.G /\ pidOf' = r.po
                   /\ ph' = IF e.k = "pull" THEN "asked" ELSE IF e.k = "recv" THEN "told" ELSE ph
   /\ l' = l + 1 /\ UNCHANGED <<tid, done>>
 
 Finish ==
   /\ ~done /\ (err # "ok" \/ l > Len(Ev))
-  /\ PrintT(<<"VERDICT", Tr.id, err, l - 1, 0>>)
-  /\ done' = TRUE /\ UNCHANGED <<tid, l, G, pidOf, ph, err>>
+  /\ PrintT(<<"VERDICT", Tr.id, err, l - 1, 0, SoftString(soft)>>)
+  /\ done' = TRUE /\ UNCHANGED <<tid, l, G, pidOf, ph, err, soft>>
 
 Next == Step \/ Finish
 Spec == Init /\ [][Next]_vars
